@@ -57,7 +57,7 @@ DEFAULT_KNOBS: Dict[str, Any] = {
     "swarm": True,
 }
 
-EXC_NAMES = ["ValueError", "KeyError", "RuntimeError", "SimError", "ZeroDivisionError", "SimBadStr", "TimeoutError", "SimTimeout"]
+EXC_NAMES = ["ValueError", "KeyError", "RuntimeError", "SimError", "ZeroDivisionError", "SimBadStr", "TimeoutError", "SimTimeout", "SimFalsy"]
 KICK_EXC_NAMES = ["SimFault", "SimFault", "RuntimeError", "TimeoutError", "OSError", "BrokerError", "UnknownTaskError", "TaskiqError", "SendTaskError", "ResultGetError"]
 BASE_EXC_NAMES = ["KeyboardInterrupt", "SystemExit", "SimBaseError", "CancelledError"]
 HOOKS_WORKER = ["pre_execute", "on_error", "post_execute", "post_save"]
